@@ -38,7 +38,16 @@ class Path:
     def fork(self):
         p = Path(self.env, self.pc)
         p.status, p.ret, p.exc = self.status, self.ret, self.exc
-        p.ghost = {k: (list(v) if isinstance(v, list) else v) for k, v in self.ghost.items()}
+        p.ghost = {k: (list(v) if isinstance(v, list) else dict(v) if isinstance(v, dict) else v) for k, v in self.ghost.items()}
+        return p
+
+    def child(self):
+        """separate environment, but facts and ghost state created in the child are kept by the parent
+        (used while evaluating sub-expressions: comprehensions, quantifier bodies, spec helper functions)."""
+        p = Path(self.env, None)
+        p.pc = self.pc
+        p.ghost = self.ghost
+        p.status = self.status
         return p
 
     def assume(self, *facts):
@@ -341,6 +350,23 @@ def arr_index(a, idxs):
     for kind, x in plan:
         if kind == "gather":
             r.facts += list(getattr(x, "facts", []))
+    # ghost provenance: rows gathered from `a` by an index array (used by "row r of the result is row idx[r] of a")
+    if plan and plan[0][0] == "gather" and all(k == "shift" and not is_z3(x) and x == 0 for k, x in plan[1:]):
+        src, idx0 = a, plan[0][1]
+        if getattr(a, "gather", None) is not None:      # gather of a gather composes
+            base, inner = a.gather
+            src = base
+            idx_in = idx0
+            idx0 = Arr(idx_in.shape, lambda k, inner=inner, idx_in=idx_in: inner.at(idx_in.at(k)), "int")
+        r.gather = (src, idx0)
+    if plan and plan[0][0] == "shift" and all(k == "shift" and not is_z3(x) and x == 0 for k, x in plan[1:]):
+        lo0 = plan[0][1]
+        n0 = new_shape[0]
+        if getattr(a, "gather", None) is not None:
+            base, inner = a.gather
+            r.gather = (base, Arr([n0], lambda k, inner=inner, lo0=lo0: inner.at(lo0 + k), "int"))
+        else:
+            r.gather = (a, Arr([n0], lambda k, lo0=lo0: to_z3(lo0) + to_z3(k), "int"))
     return r
 
 
@@ -539,14 +565,14 @@ def arith(op, a, b, ctx=None, path=None, line=None):
     raise Unsupported(f"operator {type(op).__name__}")
 
 
-POW = z3.Function("pow", z3.RealSort(), z3.RealSort(), z3.RealSort())
-EXP = z3.Function("exp", z3.RealSort(), z3.RealSort())
-LOG = z3.Function("log", z3.RealSort(), z3.RealSort())
-SQRT = z3.Function("sqrt", z3.RealSort(), z3.RealSort())
-COS = z3.Function("cos", z3.RealSort(), z3.RealSort())
-SIN = z3.Function("sin", z3.RealSort(), z3.RealSort())
-FABS = z3.Function("fabs", z3.RealSort(), z3.RealSort())
-FMOD = z3.Function("fmod", z3.RealSort(), z3.RealSort(), z3.RealSort())
+POW = z3.Function("u_pow", z3.RealSort(), z3.RealSort(), z3.RealSort())
+EXP = z3.Function("u_exp", z3.RealSort(), z3.RealSort())
+LOG = z3.Function("u_log", z3.RealSort(), z3.RealSort())
+SQRT = z3.Function("u_sqrt", z3.RealSort(), z3.RealSort())
+COS = z3.Function("u_cos", z3.RealSort(), z3.RealSort())
+SIN = z3.Function("u_sin", z3.RealSort(), z3.RealSort())
+FABS = z3.Function("u_fabs", z3.RealSort(), z3.RealSort())
+FMOD = z3.Function("u_fmod", z3.RealSort(), z3.RealSort(), z3.RealSort())
 PI = z3.Real("pi")
 
 
@@ -737,20 +763,21 @@ class Executor:
         return arith(node.op, a, b, self.ctx if not self.spec_mode else None, path, node.lineno)
 
     def ev_BoolOp(self, node, path):
-        vals = [self.ev(v, path) for v in node.values]
-        ts = [truth(v) for v in vals]
-        if all(isinstance(t, bool) for t in ts):
-            # python value semantics for concrete operands
-            if isinstance(node.op, ast.And):
-                for v, t in zip(vals, ts):
-                    if not t:
-                        return v
-                return vals[-1]
-            for v, t in zip(vals, ts):
-                if t:
+        is_and = isinstance(node.op, ast.And)
+        vals, ts = [], []
+        for vn in node.values:
+            v = self.ev(vn, path)
+            t = truth(v)
+            vals.append(v)
+            ts.append(t)
+            # short circuit on a concretely decided operand (python semantics)
+            if isinstance(t, bool) and t is (not is_and):
+                if all(isinstance(x, bool) for x in ts):
                     return v
+                return t if not is_and else False
+        if all(isinstance(t, bool) for t in ts):
             return vals[-1]
-        return b_and(*ts) if isinstance(node.op, ast.And) else b_or(*ts)
+        return b_and(*ts) if is_and else b_or(*ts)
 
     def ev_Compare(self, node, path):
         left = self.ev(node.left, path)
@@ -831,7 +858,7 @@ class Executor:
             raise Unsupported("dict comprehension over symbolic iterable")
         d = PyDict()
         for x in items:
-            p2 = path.fork()
+            p2 = path.child()
             self.assign(g.target, x, p2)
             ok = b_and(*[truth(self.ev(c, p2)) for c in g.ifs])
             if ok is True:
@@ -849,7 +876,7 @@ class Executor:
         if items is not None:
             out = []
             for x in items:
-                p2 = path.fork()
+                p2 = path.child()
                 self.assign(g.target, x, p2)
                 ok = b_and(*[truth(self.ev(c, p2)) for c in g.ifs])
                 if ok is True:
@@ -862,7 +889,7 @@ class Executor:
         n = length(it)
 
         def elem(k, it=it, g=g, node=node, path=path):
-            p2 = path.fork()
+            p2 = path.child()
             self.assign(g.target, index(it, k), p2)
             return self.ev(node.elt, p2)
         return SymSeq(n, elem)
@@ -901,15 +928,15 @@ class Executor:
             ts = [truth(x) for x in items]
             return b_and(*ts) if universal else b_or(*ts)
         vs, guards = [], []
-        p2 = path.fork()
-        concrete_product = None
+        p2 = path.child()
+        n_pc0 = len(path.pc)
         for g in gen.generators:
             it = self.ev(g.iter, p2)
             items = self.iter_concrete(it)
             if items is not None and len(gen.generators) == 1:
                 outs = []
                 for x in items:
-                    p3 = p2.fork()
+                    p3 = p2.child()
                     self.assign(g.target, x, p3)
                     conds = [truth(self.ev(c, p3)) for c in g.ifs]
                     body = truth(self.ev(gen.elt, p3))
@@ -926,6 +953,9 @@ class Executor:
             for c in g.ifs:
                 guards.append(truth(self.ev(c, p2)))
         body = truth(self.ev(gen.elt, p2))
+        for f in path.pc[n_pc0:]:
+            if is_z3(f) and any(_mentions(f, v) for v in vs):
+                raise Unsupported("a fact created under a quantifier depends on the bound variable")
         return q_forall(vs, b_and(*guards), body) if universal else q_exists(vs, b_and(*guards), body)
 
     # ---- calls -------------------------------------------------------------------------
@@ -936,15 +966,17 @@ class Executor:
             if nm in ("all", "any") and nm not in path.env:
                 return self.quantified(node, path, nm == "all")
             if nm == "old" and self.spec_mode:
-                saved = path.env
-                p2 = path.fork()
+                p2 = path.child()
                 p2.env = dict(self.old_env)
                 return self.ev(node.args[0], p2)
             if nm == "implies" and self.spec_mode:
-                return b_implies(truth(self.ev(node.args[0], path)), truth(self.ev(node.args[1], path)))
+                a0 = truth(self.ev(node.args[0], path))
+                if a0 is False:
+                    return True
+                return b_implies(a0, truth(self.ev(node.args[1], path)))
             if nm in self.contract.defs and self.spec_mode:
                 argn, body = self.contract.defs[nm]
-                p2 = path.fork()
+                p2 = path.child()
                 for a, an in zip(node.args, argn):
                     p2.env[an] = self.ev(a, path)
                 return self.ev(ast.parse(body, mode="eval").body, p2)
@@ -1019,11 +1051,20 @@ class Executor:
         fs = locate(c.qual)
         fa = fs.node.args
         names = [a.arg for a in fa.args]
+        if any(isinstance(d, ast.Name) and d.id == "classmethod" for d in fs.node.decorator_list):
+            names = names[1:]
         bound = {}
         for n_, v in zip(names, args):
             bound[n_] = v
+        allnames = set(names) | {a.arg for a in fa.kwonlyargs}
+        extra_kw = PyDict()
         for k, v in kwargs.items():
-            bound[k] = v
+            if k in allnames or fa.kwarg is None:
+                bound[k] = v
+            else:
+                extra_kw = extra_kw.set(k, v)
+        if fa.kwarg is not None:
+            bound[fa.kwarg.arg] = extra_kw
         defaults = fa.defaults
         for n_, d in zip(names[len(names) - len(defaults):], defaults):
             if n_ not in bound:
@@ -1041,11 +1082,18 @@ class Executor:
             self.ctx.vc(f"call:{c.short}/requires[{i}]@{node.lineno}", path, g, "call-pre", node.lineno, note=r)
         if c.result is None:
             raise Unsupported(f"contract of {c.qual} has no result builder")
+        n_ev = len(path.ghost.get("rng_trace", []))
         res = c.result(self, path, bound, node)
         p2.env["result"] = res
         p2.pc = path.pc
+        # the callee's postcondition speaks about the draws made *during the call* only
+        p2.ghost = dict(path.ghost)
+        p2.ghost["rng_trace"] = list(path.ghost.get("rng_trace", []))[n_ev:]
         for label, e in c.ensures.items():
-            path.assume(sub.spec(e, p2))
+            fact = sub.spec(e, p2)
+            if fact is False:
+                raise Unsupported(f"postcondition '{label}' of callee {c.qual} is contradictory at the call site (line {node.lineno})")
+            path.assume(fact)
         if self.ctx.callee_hook:
             self.ctx.callee_hook(c.qual)
         return res
@@ -1055,8 +1103,7 @@ class Executor:
         saved = self.spec_mode
         self.spec_mode = True
         try:
-            p2 = path.fork()
-            p2.pc = path.pc  # facts created while evaluating a spec are kept
+            p2 = path.child()  # facts created while evaluating a spec are kept
             if extra:
                 p2.env.update(extra)
             node = ast.parse(text.strip(), mode="eval").body
@@ -1270,7 +1317,8 @@ class Executor:
             return True
         s = z3.Solver()
         s.set("timeout", 300)
-        s.add(*[f for f in path.pc if f is not True])
+        # quantifier-free part only: fewer hypotheses can only keep more paths (sound), and it is fast
+        s.add(*[f for f in path.pc if f is not True and not z3.is_quantifier(f)])
         return s.check() != z3.unsat
 
     def st_If(self, s, path):
@@ -1343,6 +1391,8 @@ class Executor:
         ordinal = self.loop_counter
         it = self.ev(s.iter, path)
         items = self.iter_concrete(it)
+        if items is not None and ordinal in self.contract.invariants:
+            items = None
         if items is not None:
             paths, done = [path], []
             for x in items:
@@ -1413,12 +1463,23 @@ class Executor:
         finally:
             ctx.emit = saved_emit
         shapes = {}
+        n_tr0 = len(path.ghost.get("rng_trace", []))
+        body_gens = set()
         for q in outs:
+            for e in q.ghost.get("rng_trace", [])[n_tr0:]:
+                body_gens.add(e["gen"])
             if q.status in ("run", "continue", "break"):
                 for m in modified:
                     if m in q.env:
                         shapes.setdefault(m, q.env[m])
         pre_env = dict(path.env)
+        for m in modified:
+            a, b = pre_env.get(m), shapes.get(m)
+            if isinstance(a, Arr) and isinstance(b, Arr) and a.ndim == b.ndim:
+                same = all((x is y) or (not is_z3(x) and not is_z3(y) and x == y) or (is_z3(x) and is_z3(y) and x.eq(y))
+                           for x, y in zip(a.shape, b.shape))
+                if not same:
+                    b.fixed_shape = False
 
         def havoc_state():
             h = path.fork()
@@ -1427,6 +1488,12 @@ class Executor:
                 if m in pre_env and _is_scalar(pre_env[m]) and _is_scalar(tmpl):
                     tmpl = _widen(pre_env[m], tmpl)
                 h.env[m] = havoc_like(tmpl, m, pre_env)
+            if body_gens:
+                # draws made by earlier iterations: unknown in number; they came from the same call sites as this
+                # iteration's draws, so their generator is the one the dry run saw
+                h.ghost.setdefault("rng_trace", []).append(
+                    {"gen": next(iter(body_gens)) if len(body_gens) == 1 else "<mixed>", "kind": "loop-prefix",
+                     "size": -1, "value": None, "line": s.lineno})
             return h
 
         # 3. preservation
@@ -1590,6 +1657,8 @@ def havoc_like(tmpl, name, pre_env):
         shape = list(tmpl.shape) if getattr(tmpl, "fixed_shape", True) else [fresh_int(name + "_n") for _ in tmpl.shape]
         a = Arr(shape, lambda *idx, f=f: f(*[to_z3(i) for i in idx]), tmpl.dtype, name)
         a.fixed_shape = getattr(tmpl, "fixed_shape", True)
+        if not a.fixed_shape:
+            a.facts = [d >= 0 for d in shape]
         return a
     if isinstance(tmpl, Obj):
         return Obj(tmpl.cls, {k: (havoc_like(v, f"{name}.{k}", pre_env) if k in getattr(tmpl, "mutable_fields", ()) else v)
